@@ -105,6 +105,12 @@ func VH_C16_fields_default_order() {
 	for i := 0; i < n; i++ {
 		evt[vFieldName()] = vFieldValue()
 	}
+	vFieldsDefaultCheck(evt)
+	zzverif.Reach("C16/fields-default")
+}
+
+// vFieldsDefaultCheck: writeFields on evt with default ordering against the reference rendering.
+func vFieldsDefaultCheck(evt map[string]interface{}) {
 	w := vConsole()
 	excluded := ""
 	if zzverif.Choice(2) == 1 {
@@ -157,7 +163,22 @@ func VH_C16_fields_default_order() {
 	got := buf.Bytes()[pre:]
 	zzverif.Observe("fields", got)
 	zzverif.Assert(zzverif.EqualBytes(got, []byte(want)), "console fields: every non-excluded, non-part field exactly once as name=value, the error field first and the rest in lexical order, single spaces, none trailing")
-	zzverif.Reach("C16/fields-default")
+}
+
+// The error field among several fields that sort BEFORE it: the error moves to the front and the
+// rest stay in lexical order (three symbolic one-letter names, so every relative order occurs).
+func VH_C16_error_first() {
+	vSetOther()
+	evt := map[string]interface{}{}
+	evt[vLetter()] = "v"
+	evt[vLetter()] = json.Number("7")
+	evt[ErrorFieldName] = "boom"
+	evt[vLetter()] = "v"
+	if zzverif.Choice(2) == 1 {
+		evt[""] = "v"
+	}
+	vFieldsDefaultCheck(evt)
+	zzverif.Reach("C16/error-first")
 }
 
 func VH_C16_fields_order() {
@@ -166,6 +187,15 @@ func VH_C16_fields_order() {
 	zzverif.Assume(a != b)
 	evt := map[string]interface{}{a: "v", b: json.Number("7"), c: "v"}
 	w := vConsole()
+	if zzverif.Choice(2) == 1 {
+		// built by the constructor, with an option that sets an initial FieldsOrder which the
+		// program replaces below: the configuration in force when the event is written counts
+		w = NewConsoleWriter(func(cw *ConsoleWriter) {
+			*cw = vConsole()
+			cw.Out = &vWriter{}
+			cw.FieldsOrder = []string{b, "zz"}
+		})
+	}
 	switch zzverif.Choice(3) {
 	case 0:
 		w.FieldsOrder = []string{c}
